@@ -34,6 +34,13 @@ def size_class(N):
     return "ploidy*n a power of two" if is_pow2(int(N)) else "ploidy*n not a power of two"
 
 
+# input classes of generations that are read from an object with a past (the object, not the population, is the input class)
+INPLACE_ICLS = "population object changed in place after its limits were read"
+COPY_ICLS = "population object obtained by copy() / deepcopy() of one whose limits were read"
+REREAD_ICLS = "unchanged population object read again"
+STATEFUL_ICLS = (INPLACE_ICLS, COPY_ICLS, REREAD_ICLS)
+
+
 def tight_reference(u, present, fixed, ploidy):
     """(usl, lsl) if at each locus the better / worse allele still present is carried on all ``ploidy`` copies.
 
@@ -242,6 +249,8 @@ class HistoryMonitor:
             # wrong already when handed the correctly rounded frequency vector: the input form does not matter
             return numpy_site, "any input form" + self.mkind
         if view in G.afreq:
+            # (for an object with a past the frequency it reports *now* is compared with its content *now*: a remembered
+            #  frequency shows up here)
             p, acls = G.afreq[view]
             p = numpy.asarray(p, dtype=float)
             pres, fix = p > 0.0, p >= 1.0
@@ -250,8 +259,10 @@ class HistoryMonitor:
                 ru, rl = tight_reference(self.u, pres, fix, G.ploidy)
                 r = (ru if kind == "usl" else rl) + (G.offset if sc == "un" else 0.0)
                 if r.shape == val.shape and numpy.all(numpy.abs(val - r) <= self.tol(G.ploidy, G.offset)):
-                    return acls + ".afreq", size_class(G.N), "reported frequency exactly 0/1 iff count 0/ploidy*n (limits follow it)"
-            return "%s.%s" % (defining_class(self.model, kind), kind), "%s matrix input" % view
+                    return (acls + ".afreq", G.icls if G.icls in STATEFUL_ICLS else size_class(G.N),
+                            "reported frequency exactly 0/1 iff count 0/ploidy*n (limits follow it)")
+            return ("%s.%s" % (defining_class(self.model, kind), kind),
+                    "%s matrix input" % view + (" (%s)" % G.icls if G.icls in STATEFUL_ICLS else ""))
         if view == "ndarray" and dev and fr is not None:
             # the same model is right when handed the correctly rounded frequency:
             # the frequency computed inside usl()/lsl() for array input is what is off
@@ -272,6 +283,9 @@ class HistoryMonitor:
     def gebv_site(self, G, sc):
         """The limits are what the reference says, the breeding values the library reported are not genotype @ effects."""
         d = G.gdev.get(sc)
+        if isinstance(d, tuple) and len(d) == 4:   # a read of a breeding value matrix object: (method, label, site, input class)
+            return (d[2], d[3], "breeding values read from a breeding value matrix == genotype @ effects + intercept; the limits are "
+                                "right, the values leave them")
         if isinstance(d, tuple):     # (method, route label) of the first route whose values are off
             site = "%s.%s" % (defining_class(self.model, d[0]), d[1])
         else:
